@@ -13,7 +13,7 @@ import time
 import traceback
 import warnings
 
-from . import pyxfront
+from . import localnames, pyxfront
 
 warnings.simplefilter("ignore", SyntaxWarning)
 
@@ -32,12 +32,16 @@ class Source:
         self.text = text
         self.is_pyx = rel.endswith((".pyx", ".pxd"))
         self.low = None
+        self.renamed = {}
         try:
             if self.is_pyx:
                 self.low = pyxfront.lower(rel, text)
                 self.tree = self.low.tree
+                self.renamed = localnames.recover(rel, self.tree, self.low)
             else:
                 self.tree = ast.parse(text, filename=rel)
+                # undo behaviour-preserving renames of local variables (see localnames.py)
+                self.renamed = localnames.recover(rel, self.tree)
         except pyxfront.LoweringError as e:
             raise AnalysisError(f"cannot lower {rel}: {e}")
         except SyntaxError as e:
